@@ -56,6 +56,7 @@ func c04Specs(tier string) []*h.SeqSpec {
 		{"unsupported Content-Type", i1.Data, "application/json", "", "unsupported media type"},
 		{"no Content-Type, detectable image", i1.Data, "", "I1", ""},
 		{"no Content-Type, undetectable body", []byte("{}"), "", "", "media type cannot be determined"},
+		{"no Content-Type, no mediaType, empty manifests array", []byte(`{"schemaVersion":2,"manifests":[]}`), "", "", "media type cannot be determined"},
 		{"image without mediaType field", noMT, mtImg, "I1nomt", ""},
 		{"docker type for an OCI body", i1.Data, types.MediaTypeDocker2Manifest, "", "media type inconsistent with the body (mediaType field names the OCI type)"},
 		{"image, layer digest of the wrong length", mangle(i1.Data, l1d, "sha256:abcd"), mtImg, "", "a layer digest that is not a digest"},
@@ -163,6 +164,7 @@ func c04Specs(tier string) []*h.SeqSpec {
 	push("PUT valid image under a 129 character tag", b0, func() string { return strings.Repeat("a", 129) }, "invalid tag", "", "")
 	push("PUT valid image under tag a!b", b0, func() string { return "a!b" }, "invalid tag", "", "")
 	push("PUT valid image under the digest of other content", b0, func() string { return f.Items["I2"].Dig }, "reference is not the digest of the body", "", "")
+	push("PUT valid image under the digest of other content ?digest=the body's digest", b0, func() string { return f.Items["I2"].Dig }, "reference is not the digest of the body", "digest="+url.QueryEscape(h.Dig("sha256", b0.data)), "")
 	push("PUT valid image under a malformed digest", b0, func() string { return "sha256:xyz" }, "malformed digest", "", "")
 	push("PUT valid image under a sha512 digest", b0, func() string { return h.Dig("sha512", b0.data) }, "", "", "")
 	push("PUT valid image as t ?digest=right sha512", b0, tagRef, "", "digest="+url.QueryEscape(h.Dig("sha512", b0.data)), "")
